@@ -3,8 +3,9 @@ import Dashu.Model.Float.Spec
 /-
   Driver of group `float` (C10, C03).
 
-  Every op prints what the mirrored model computes with `fixed := true` (the behaviour the property
-  requires; identical to the code as it is wherever the code is not defective) and evaluates the
+  Every op prints what the mirrored model computes (for `Context::mul/sqr/cubic` with
+  `fixed := true`, i.e. without the pre-shrink of over-long operands — the behaviour the property
+  requires, identical to the code as it is for operands of at most 2p / 3p digits) and evaluates the
   specification beside it (`roundInt` for the integer roundings and the primitives, `contractOk` /
   `contractSqrtOk` for the arithmetic): a disagreement is printed as ` !model-spec-mismatch …`.
   With `asIs := true` (environment variable `DASHU_FLOAT_ASIS`, used to validate the mirror) the
@@ -184,7 +185,7 @@ def binArith (asIs : Bool) (ctxForm : Bool) (op : String) (a b : FArg) (p : Nat)
   match op with
   | "add" | "sub" =>
     let rs : Int := if op = "add" then 1 else -1
-    let r := ctxAddSub fixed B m coarseNone dub p x y rs
+    let r := ctxAddSub B m coarseNone dub p x y rs
     let ex := q B x + (rs : Rat) * q B y
     let rep := representable B p (FRepr.new B (x.signif * ((B ^ (x.exp - min x.exp y.exp).toNat : Nat) : Int)
         + rs * y.signif * ((B ^ (y.exp - min x.exp y.exp).toNat : Nat) : Int)) (min x.exp y.exp))
@@ -227,7 +228,7 @@ def unArith (asIs : Bool) (ctxForm : Bool) (op : String) (a : FArg) (p : Nat) : 
       let ex := 1 / q B x
       pure (chkContract asIs B m p ex (isRepresentableQ B p ex) r (ok (roundedStr r p)))
   | "sqrt" =>
-    match ctxSqrt fixed B m coarseNone p x with
+    match ctxSqrt B m coarseNone p x with
     | .error k => pure (Dashu.Driver.panic k.name)
     | .ok r =>
       let s := ok (roundedStr r p)
@@ -288,25 +289,25 @@ def dispatchCore (asIs : Bool) : Dispatch := fun _W op args =>
   | "f.floor", [a] => do
     let fa ← parseF a; let x ← fa.fbig
     let B := fa.base
-    let r := fFloor fixed B coarseNone (dubF32 B) x
+    let r := fFloor B coarseNone (dubF32 B) x
     let s := ok (fbigStr r)
     pure (if asIs ∨ q B r.repr = (roundInt .down (q B x.repr) : Rat) then s else mism s "floor")
   | "f.ceil", [a] => do
     let fa ← parseF a; let x ← fa.fbig
     let B := fa.base
-    let r := fCeil fixed B coarseNone (dubF32 B) x
+    let r := fCeil B coarseNone (dubF32 B) x
     let s := ok (fbigStr r)
     pure (if asIs ∨ q B r.repr = (roundInt .up (q B x.repr) : Rat) then s else mism s "ceil")
   | "f.round", [a] => do
     let fa ← parseF a; let x ← fa.fbig
     let B := fa.base
-    let r := fRound fixed B coarseNone (dubF32 B) x
+    let r := fRound B coarseNone (dubF32 B) x
     let s := ok (fbigStr r)
     pure (if asIs ∨ q B r.repr = (roundInt .halfAway (q B x.repr) : Rat) then s else mism s "round")
   | "f.fract", [a] => do
     let fa ← parseF a; let x ← fa.fbig
     let B := fa.base
-    let r := fFract fixed B (dubF32 B) x
+    let r := fFract B (dubF32 B) x
     let s := ok (fbigStr r)
     pure (if asIs ∨ q B r.repr = q B x.repr - (roundInt .zero (q B x.repr) : Rat) then s else mism s "fract")
   | "f.split", [a] => do
@@ -314,7 +315,7 @@ def dispatchCore (asIs : Bool) : Dispatch := fun _W op args =>
     let B := fa.base
     let (t, f) := fSplitAtPoint B (dubF32 B) x
     let t2 := fTrunc B (dubF32 B) x
-    let f2 := fFract fixed B (dubF32 B) x
+    let f2 := fFract B (dubF32 B) x
     let s := ok (fbigStr t ++ " " ++ fbigStr f)
     let s := if (t, f) = (t2, f2) then s else s ++ " !model-forms-disagree"
     pure (if asIs ∨ (q B t.repr = (roundInt .zero (q B x.repr) : Rat) ∧ q B t.repr + q B f.repr = q B x.repr)
@@ -322,7 +323,7 @@ def dispatchCore (asIs : Bool) : Dispatch := fun _W op args =>
   | "f.to_int", [a] => do
     let fa ← parseF a; let x ← fa.fbig
     let B := fa.base
-    let r := fToInt fixed B fa.mode coarseNone (dubF32 B) x
+    let r := fToInt B fa.mode coarseNone (dubF32 B) x
     let s := ok (roundedIntStr r)
     let v := q B x.repr
     let want := roundInt fa.mode v
